@@ -17,6 +17,8 @@ SOURCES = [
     "def f(x):\n    y = 0\n    while x > 0:\n        if x % 2 and y < 10:\n            y += x\n        elif x == 7:\n            break\n        x -= 1\n    else:\n        y -= 1\n    return y\n",
     "def f(a, b):\n    c = 0\n    for i in range(a):\n        for j in range(b):\n            if i == j:\n                continue\n            if i > j or j > 5:\n                break\n            c += 1\n        else:\n            c += 10\n    return c\n",
     "def f(x, y):\n    if x and y:\n        return 1\n    elif x or y:\n        return 2\n    return 3\n",
+    "def f(a, b):\n    c = 0\n    if a > 0:\n        while a:\n            a -= 1\n            c += 1\n    elif b > 0:\n        for i in range(b):\n            c += i\n    else:\n        while c < 3:\n            c += 1\n    return c\n",
+    "def f(n):\n    s = 0\n    i = 0\n    while i < n:\n        i += 1\n        if i % 2:\n            continue\n        if i % 3:\n            continue\n        if i % 5:\n            continue\n        s += i\n    return s\n",
     "def f(n):\n    s = 0\n    while n:\n        n -= 1\n        if n == 3:\n            return s\n        s += n\n    return -s\n",
 ]
 
@@ -56,6 +58,9 @@ def inputs(tier, seed):
             s = cfgpass.graph_from_index(n, idx)
             if cfgpass.is_closed(s):
                 graphs.append(cfgpass.to_named(s))
+    # sibling loops in different branch arms, several latches per loop
+    graphs.append({'0': ('1', '4'), '1': ('2', '3'), '2': ('2', '7'), '3': ('3', '7'), '4': ('5', '6'), '5': ('5', '7'), '6': ('6', '7'), '7': ()})
+    graphs.append({'0': ('1',), '1': ('2', '6'), '2': ('3', '1'), '3': ('4', '1'), '4': ('5', '1'), '5': ('1',), '6': ()})
     cnt = 150 if tier == 'quick' else 1500
     for i in range(cnt):
         graphs.append(cfgpass.to_named(cfgpass.random_closed(rng.choice([4, 5, 6, 7, 8, 9, 10, 12]), rng)))
